@@ -209,10 +209,11 @@ type callRecord struct {
 }
 
 type simClient struct {
-	s     *simkit.Sim
-	st    *mstore
-	inner storepb.StoreClient
-	tsdb  *store.TSDBStore
+	s              *simkit.Sim
+	ctxErrAsStatus bool
+	st             *mstore
+	inner          storepb.StoreClient
+	tsdb           *store.TSDBStore
 
 	lsets      []labels.Labels
 	mint, maxt int64
@@ -230,6 +231,10 @@ var _ store.Client = (*simClient)(nil)
 // newSimClient builds the server of st (inside the bubble) and wraps it.
 func newSimClient(s *simkit.Sim, st *mstore) *simClient {
 	c := &simClient{s: s, st: st}
+	// A real gRPC client reports the cancellation or expiry of the stream context as a status error
+	// (codes.Canceled / DeadlineExceeded); an in-process client returns the bare context error. Which
+	// of the two this client does is a pure function of the seed and the store name.
+	c.ctxErrAsStatus = simkit.Hash64(fmt.Sprint(s.X.Seed), "ctx-err-as-status", st.Name)%2 == 0
 	var srv storepb.StoreServer
 	switch st.Kind {
 	case kindTSDB:
@@ -331,6 +336,14 @@ func (c *simClient) Series(ctx context.Context, in *storepb.SeriesRequest, _ ...
 	return &simStream{c: c, ctx: ctx, inner: inner, rec: rec, fault: f}, nil
 }
 
+// ctxErr renders a context error the way this client's transport would.
+func (c *simClient) ctxErr(err error) error {
+	if c.ctxErrAsStatus && (errors.Is(err, context.Canceled) || errors.Is(err, context.DeadlineExceeded)) {
+		return status.FromContextError(err).Err()
+	}
+	return err
+}
+
 type simStream struct {
 	storepb.Store_SeriesClient // unused methods
 	c                          *simClient
@@ -359,12 +372,12 @@ func (t *simStream) Recv() (*storepb.SeriesResponse, error) {
 		<-t.ctx.Done()
 		t.done = true
 		c.s.Note("%s stalled stream cancelled by the caller", c.st.Name)
-		return nil, t.ctx.Err()
+		return nil, c.ctxErr(t.ctx.Err())
 	}
 	if err := c.s.Park(t.ctx, c.s.OpID(c.st.Name, "recv")); err != nil {
 		t.rec.Cancelled = true
 		t.done = true
-		return nil, err
+		return nil, c.ctxErr(err)
 	}
 	if t.fault.Mode == "fail" && t.k == t.fault.K {
 		t.rec.Faulted = true
